@@ -12,7 +12,7 @@ import (
 )
 
 func init() {
-	register("C16", "Token limit: (R1) tokens are consumed at a single point — ReadToken is called only by the look-ahead and the advance function, the current token and the look-ahead flag are rewritten only by the advance function (or a helper called only from it), and the counter has one store, +1, dominating every consumption; (R2) exactness — along every path of the advance function the branch conditions over (count, limit) imply `limit = 0 or count <= limit` at each consumption and `limit != 0 and count >= limit+1` at the limit error (interval reasoning over d = count-limit and limit), and every return follows a consumption or an error; (R3) each limited entry point stores its limit parameter into every parser it creates, forwards it to every entry point it calls, and a parser is pointed at a source only when freshly created; (R4) each limited entry point agrees with its unlimited twin on callees and stored fields; (R5) recursion depth of the parser is bounded by consumed tokens (shared with C01.R6). (R6) no branch outside the advance function and its private helpers reads the token counter or the limit. (R7) no consuming call is asked for the end-of-input kind.", runC16)
+	register("C16", "Token limit: (R1) tokens are consumed at a single point — ReadToken is called only by the look-ahead and the advance function, the current token and the look-ahead flag are rewritten only by the advance function (or a helper called only from it), and the counter has one store, +1, dominating every consumption; (R2) exactness — along every path of the advance function the branch conditions over (count, limit) imply `limit = 0 or count <= limit` at each consumption and `limit != 0 and count >= limit+1` at the limit error (interval reasoning over d = count-limit and limit), and every return follows a consumption or an error; (R3) each limited entry point stores its limit parameter into every parser it creates, forwards it to every entry point it calls, and a parser is pointed at a source only when freshly created; (R4) each limited entry point agrees with its unlimited twin on callees and stored fields; (R5) recursion depth of the parser is bounded by consumed tokens (shared with C01.R6). (R6) no branch outside the advance function and its private helpers reads the token counter or the limit. (R7) no consuming call is asked for the end-of-input kind. (R8) no entry point drops an error it has obtained.", runC16)
 }
 
 // lin is a*count_after + b*limit + k.
@@ -742,6 +742,8 @@ func runC16(c *Ctx) {
 			r7.OK(fmt.Sprintf("%d consuming calls with a token kind argument", n), "none asks for EOF; the grammars stop at EOF by looking at it only")
 		}
 	}
+	r8 := c.Rule("R8", "no entry point drops an error it has obtained", 4)
+	parserErrorsNotDropped(c, r8, m)
 	if inNext == 0 {
 		r6.AnchorLost("a branch on the counter or the limit in the advance function")
 	} else if outside == 0 {
@@ -873,4 +875,147 @@ func dedupe(in []string) []string {
 		}
 	}
 	return out
+}
+
+// parserErrorsNotDropped (C01.R9, C16.R8): in every entry point of the parser, an error that was obtained — the
+// parser's sticky error read after parsing, or the error result of another entry point — reaches the caller: on every
+// path from the place it is obtained to a return, it is either what the return hands back, or it has been compared
+// with nil and found nil. (A test of the document instead of the error lets a partial document through with a nil
+// error.)
+func parserErrorsNotDropped(c *Ctx, r *RuleResult, m *parserModel) {
+	p := c.P
+	isEP := map[*ssa.Function]bool{}
+	for _, f := range m.eps {
+		isEP[f] = true
+	}
+	n := 0
+	for _, fn := range m.eps {
+		var sources []ssa.Value
+		allInstrs(fn, func(in ssa.Instruction) {
+			switch x := in.(type) {
+			case *ssa.UnOp:
+				if x.Op == token.MUL && m.fieldAddr(x.X, "err") {
+					sources = append(sources, x)
+				}
+			case *ssa.Extract:
+				if call, ok := x.Tuple.(*ssa.Call); ok && isErrorType(x.Type()) {
+					if g := call.Call.StaticCallee(); g != nil && p.inModule(g) {
+						sources = append(sources, x)
+					}
+				}
+			}
+		})
+		for _, s := range sources {
+			n++
+			site := fmt.Sprintf("error obtained at %s in %s", p.Pos(s.Pos()), p.FuncName(fn))
+			// values that carry s
+			carries := func(v ssa.Value) bool {
+				seen := map[ssa.Value]bool{}
+				var walk func(v ssa.Value, d int) bool
+				walk = func(v ssa.Value, d int) bool {
+					if d > 5 || seen[v] {
+						return false
+					}
+					seen[v] = true
+					v = unspill(v)
+					if v == s {
+						return true
+					}
+					switch y := v.(type) {
+					case *ssa.Phi:
+						for _, e := range y.Edges {
+							if walk(e, d+1) {
+								return true
+							}
+						}
+					case *ssa.MakeInterface:
+						return walk(y.X, d+1)
+					case *ssa.ChangeInterface:
+						return walk(y.X, d+1)
+					case *ssa.ChangeType:
+						return walk(y.X, d+1)
+					}
+					return false
+				}
+				return walk(v, 0)
+			}
+			nilTestOf := func(cond ssa.Value) (isNE bool, ok bool) {
+				cd := normCond(Cond{V: cond, True: true})
+				bo, isB := cd.V.(*ssa.BinOp)
+				if !isB || (bo.Op != token.EQL && bo.Op != token.NEQ) {
+					return false, false
+				}
+				var other ssa.Value
+				if isNilConst(bo.Y) {
+					other = bo.X
+				} else if isNilConst(bo.X) {
+					other = bo.Y
+				}
+				if other == nil || !carries(other) {
+					return false, false
+				}
+				ne := bo.Op == token.NEQ
+				if !cd.True {
+					ne = !ne
+				}
+				return ne, true
+			}
+			var bad *ssa.Return
+			seen := map[*ssa.BasicBlock]bool{}
+			var walk func(b *ssa.BasicBlock, first bool)
+			walk = func(b *ssa.BasicBlock, first bool) {
+				if bad != nil || (seen[b] && !first) {
+					return
+				}
+				seen[b] = true
+				if ret, ok := b.Instrs[len(b.Instrs)-1].(*ssa.Return); ok {
+					okRet := false
+					for _, rv := range ret.Results {
+						if carries(rv) {
+							okRet = true
+						}
+					}
+					if !okRet {
+						bad = ret
+					}
+					return
+				}
+				if ifi, ok := b.Instrs[len(b.Instrs)-1].(*ssa.If); ok {
+					if ne, isTest := nilTestOf(ifi.Cond); isTest {
+						// the nil side needs nothing more; the non-nil side goes on
+						nonNil := b.Succs[0]
+						if !ne {
+							nonNil = b.Succs[1]
+						}
+						walk(nonNil, false)
+						return
+					}
+				}
+				for _, sc := range b.Succs {
+					walk(sc, false)
+				}
+			}
+			walk(s.(ssa.Instruction).Block(), true)
+			if bad != nil {
+				r.Fail(bad.Pos(), p.FuncName(fn), "error obtained at "+p.Pos(s.Pos())+" can be dropped", "a path from the place this error is obtained reaches a return that does not hand it back, without the error having been found nil: the caller gets a nil error (and a partial document) for an input that failed")
+			} else {
+				r.OK(site, "returned, or found nil, on every path to a return")
+			}
+		}
+	}
+	if n == 0 {
+		r.AnchorLost("reads of the parser's error in the entry points")
+	}
+}
+
+func isErrorType(t types.Type) bool {
+	if n := namedOf(t); n != nil && n.Obj().Name() == "error" && n.Obj().Pkg() == nil {
+		return true
+	}
+	if pt, ok := t.Underlying().(*types.Pointer); ok {
+		if n := namedOf(pt.Elem()); n != nil && n.Obj().Name() == "Error" {
+			return true
+		}
+	}
+	return types.IsInterface(t) && t.String() == "error"
 }
